@@ -249,7 +249,9 @@ func runC12(c *core.Ctx) {
 	// pointers) and zero-capacity slices; big and round Grow amounts
 	if c.Index%3 == 0 {
 		ok := false
-		switch (c.Index / 3) % 7 {
+		switch (c.Index / 3) % 8 {
+		case 7:
+			ok = typedSplice(c, "int8", func(i int) int8 { return int8(-(i%120 + 2)) }) // negative values: sign extension
 		case 0:
 			ok = typedSplice(c, "[9]int64", func(i int) [9]int64 { return [9]int64{int64(i), 1, 2, 3, 4, 5, 6, 7, int64(-i)} })
 		case 1:
